@@ -297,3 +297,9 @@ mod tests {
         assert!(r.try_pack(&single).is_none(), "single key needs no pack");
     }
 }
+
+// Verification hook (/verif): contract proof harnesses for the optimizer's statistics
+// guards; compiled only by `cargo kani`.
+#[cfg(kani)]
+#[path = "/verif/kani/optimizer_c03.rs"]
+mod verif_kani;
